@@ -571,6 +571,7 @@ func runC09(c *run.Ctx) {
 	}
 	fam := c.Idx % 3
 	cfg := world.DefaultCfg()
+	cfg.KindTwins, cfg.SharedNames = 0.15, 0.25
 	cfg.NamedEgressIP = 0
 	cfg.MaxWorkloads = 5
 	if g.P(0.4) {
